@@ -96,7 +96,8 @@ CARRIERS = [{"name": "reverse"}, {"name": "zeroOdd"}, {"name": "zeroBelow", "k":
             {"name": "scale", "k": "-1"}, {"name": "scale", "k": "2"}, {"name": "scale", "k": "0"}]
 # magnitudes far from ordinary counts: smallest subnormal, tiny concentrations, values just around the default
 # absolute tolerance of numpy.isclose (1e-8), totals above 1e8, very large
-WILD = [5e-324, 1e-300, 1e-12, 1.33e-9, 1e-8, 9.9e-9, 1.01e-8, 1e8, 2.5e8, 3e9, 1e12, 1e300]
+WILD = [5e-324, 1e-309, 1e-300, 1e-12, 1.33e-9, 1e-8, 9.9e-9, 1.01e-8, 0.1, 1.0 / 3.0, 16777217.0, 1e8, 2.5e8, 3e9,
+        9007199254740994.0, 1e12, 1e300]
 # the subset on which float normalisation stays within 2^-40 of the exact quotient (no underflow, no subnormal
 # quotient: smallest ratio about 1e-25)
 NORM_WILD = [1e-12, 1.33e-9, 1e-8, 9.9e-9, 1.01e-8, 1e8, 2.5e8, 3e9, 1e12, 123456789.0]
@@ -304,7 +305,50 @@ def reentrant(f, t, seed, allow_nnz, only=None):
     return g
 
 
-def build_case_table(case):
+SHARED_FMTS = ["csr", "csr", "csc", "coo", "lil", "dok", "bsr", "dia"]
+SHARED_DTYPES = ["float64", "float64", "float32", "int64", "int32"]
+GROUP_MD = {"observation": {"tree": ("newick", "(a,b);")}, "sample": {"batch": ("string", "q%s")}}
+
+
+def build_shared(case, keep=None):
+    """the receiver is built DIRECTLY from a scipy matrix object the caller keeps (any format / dtype), next to
+    sibling tables built from the very same object; `keep` receives the caller's matrix, a private copy of it and the
+    siblings, so that the check can demand none of them is touched by what happens to the receiver"""
+    import copy
+    import scipy.sparse as sp
+    from biom import Table
+    spec, sh = case["spec"], case["shared"]
+    arr = np.array(spec["rows"], dtype=float).reshape(len(spec["obs"]), len(spec["samp"]))
+    M = sp.csr_matrix(arr.astype(sh["dtype"])).asformat(sh["fmt"])
+    M0 = M.copy()
+    kw = dict(observation_metadata=copy.deepcopy(spec.get("omd")), sample_metadata=copy.deepcopy(spec.get("smd")),
+              type=spec.get("type"))
+    sibs = []
+    if sh.get("sibling") in ("before", "both"):
+        sibs.append(("sibling-same-matrix-before", Table(M, ["X" + i for i in spec["obs"]], list(spec["samp"]))))
+    t = Table(M, spec["obs"], spec["samp"], observation_group_metadata=copy.deepcopy(GROUP_MD["observation"]),
+              sample_group_metadata=copy.deepcopy(GROUP_MD["sample"]), **kw)
+    if sh.get("sibling") in ("after", "both"):
+        sibs.append(("sibling-same-matrix-after", Table(M, list(spec["obs"]), ["Y" + i for i in spec["samp"]])))
+    if keep is not None:
+        keep["caller"] = (M, M0)
+        keep["siblings"] = [(n, b, table_obs(b)) for n, b in sibs]
+    return t
+
+
+def caller_untouched(M, M0):
+    if M.getformat() != M0.getformat() or M.dtype != M0.dtype or M.shape != M0.shape:
+        return False
+    if not np.array_equal(M.toarray(), M0.toarray()):
+        return False
+    for name in ("data", "indices", "indptr", "row", "col", "offsets"):
+        a, b = getattr(M, name, None), getattr(M0, name, None)
+        if isinstance(a, np.ndarray) and a.dtype != object and not np.array_equal(a, b):
+            return False
+    return True
+
+
+def build_case_table(case, keep=None):
     if "sparse" in case:
         # hand-made sparse input (may carry explicitly stored zeros)
         import scipy.sparse as sp
@@ -314,7 +358,10 @@ def build_case_table(case):
         m = cls((np.array([float(core.unfrac(x)) for x in s["data"]]), np.array(s["indices"], dtype=np.int32),
                  np.array(s["indptr"], dtype=np.int32)), shape=tuple(s["shape"]))
         return Table(m, case["spec"]["obs"], case["spec"]["samp"])
-    t = core.build(case["spec"], case["route"])
+    if case.get("shared"):
+        t = build_shared(case, keep)
+    else:
+        t = core.build(case["spec"], case["route"])
     if case.get("addmd"):
         # metadata added for SOME IDs only: the others get entries that hold no key
         t.add_metadata({k: dict(v) for k, v in case["addmd"]["md"].items()}, axis=case["addmd"]["axis"])
@@ -409,13 +456,48 @@ def make_bystanders(t, rng):
              ("transpose2", lambda: t.transpose().transpose()),
              ("transform-copy", lambda: t.transform(lambda v, i, m: v, axis=rng.choice(["sample", "observation"]),
                                                     inplace=False)),
-             ("pa-copy", lambda: t.pa(inplace=False))]
+             ("pa-copy", lambda: t.pa(inplace=False)),
+             # relabelling: a new table around the receiver's own matrix object
+             ("relabel-from-matrix_data", lambda: t.__class__(t.matrix_data, ["R" + str(i) for i in obs], list(samp))),
+             ("update_ids-rotated", lambda: t.update_ids(dict(zip(samp, samp[1:] + samp[:1])), axis="sample",
+                                                         strict=True, inplace=False))]
     rng.shuffle(cands)
     out = []
-    for name, mk in cands[:rng.randint(1, 3)]:
+    for name, mk in cands[:rng.randint(1, 2)]:
         b = mk()
         out.append((name, b, table_obs(b)))
     return out
+
+
+def wrap_fn(f, how):
+    """other shapes a user function comes in: partial application, callable object, bound method, a function that
+    itself runs transforms on an unrelated table while the outer transform is running"""
+    import functools
+    if how == "partial":
+        return functools.partial(lambda pad, v, i, m: f(v, i, m), "pad")
+    if how == "object":
+        class Fn(object):
+            def __call__(self, v, i, m):
+                return f(v, i, m)
+        return Fn()
+    if how == "method":
+        class Holder(object):
+            def run(self, v, i, m):
+                return f(v, i, m)
+        return Holder().run
+    if how == "nested":
+        from biom import Table
+
+        def g(v, i, m):
+            other = Table(np.array([[1.0, 2.0, 0.0], [0.0, 5.0, 7.0]]), ["p", "q"], ["u", "v", "w"])
+            other.transform(lambda a, b, c: a * 3, axis="observation", inplace=True)
+            other.norm(axis="sample", inplace=True)
+            other.rankdata(axis="observation", method="min")
+            return f(v, i, m)
+        return g
+    if how == "generator-list":
+        return lambda v, i, m: list(x for x in np.asarray(f(v, i, m), dtype=float))
+    return f
 
 
 def invoke(case, t):
@@ -424,7 +506,7 @@ def invoke(case, t):
     axis, inplace = case["axis"], case["inplace"]
     pos = case.get("call") == "positional"   # the docstring's spelling: t.transform(f, 'observation', False)
     if op == "transform":
-        f = py_fn(case["fn"])
+        f = wrap_fn(py_fn(case["fn"]), case.get("wrap"))
         if case.get("reenter") is not None:
             allow_nnz = (not inplace) or case["fn"]["name"] in NONZEROING or \
                 (case["fn"]["name"] == "scale" and case["fn"]["k"] != "0") or bool(case.get("nnz-probe"))
@@ -451,13 +533,22 @@ def spy_run(mods, thunk):
         real = T._transform
 
         def spy(arr, ids, md, function, axis):
+            if cap.get("depth", 0) > 0:
+                # a kernel call made by the user function itself (a transform of some other table): not the call
+                # under observation
+                cap["nested"] = cap.get("nested", 0) + 1
+                return real(arr, ids, md, function, axis)
             cap["calls"] += 1
             cap["cs"] = cs_json(arr)
             cap["fmt"] = arr.getformat()
             cap["axisnum"] = int(axis)
             lg = Logger(function)
             cap["log"] = lg.log
-            return real(arr, ids, md, lg, axis)
+            cap["depth"] = 1
+            try:
+                return real(arr, ids, md, lg, axis)
+            finally:
+                cap["depth"] = 0
         T._transform = spy
         res = thunk()
     return res, cap
@@ -510,7 +601,9 @@ def model_fn_and_check(case, before, cap):
 def check_table(ctx, impls, case, tags=()):
     import biom.err
     mods = impls[case["impl"]]
-    t = build_case_table(case)
+    keep = {}
+    t = build_case_table(case, keep)
+    gmd_before = (repr(t.group_metadata("observation")), repr(t.group_metadata("sample")))
     stress = case.get("stress")
     srng = random.Random(stress) if stress is not None else None
     bystanders = []
@@ -537,12 +630,16 @@ def check_table(ctx, impls, case, tags=()):
     facts = core.layout_facts(t)
     axis = case["axis"] if case["op"] != "pa" else "sample"
     profile = case.get("profile")
+    import warnings
     try:
-        if profile:
-            with biom.err.errstate(empty=profile):
+        with warnings.catch_warnings():
+            if case.get("wfilter"):
+                warnings.simplefilter(case["wfilter"])
+            if profile:
+                with biom.err.errstate(empty=profile):
+                    res, cap = spy_run(mods, lambda: invoke(case, t))
+            else:
                 res, cap = spy_run(mods, lambda: invoke(case, t))
-        else:
-            res, cap = spy_run(mods, lambda: invoke(case, t))
     except Exception as e:  # the property promises a result for every table of the domain
         ctx.case(case, nontrivial=True)
         ctx.fail(case, "raised:" + core.err_name(e), tuple(tags) + ("table", "impl=" + case["impl"], "op=" + case["op"],
@@ -555,7 +652,7 @@ def check_table(ctx, impls, case, tags=()):
     if srng is not None:
         nnz_first = int(res.nnz)           # before any accessor replaces the matrix object
         same_axis_first = [core.frac(x) for i in res.ids(axis=axis) for x in res.data(i, axis=axis)]
-        extra["viewsResult"] = view_tables(res, srng)
+        extra["viewsResult"] = view_tables(res, srng, which=3)
         extra["nnzResult"] = [nnz_first, int(res.nnz)]
         vecs = vectors_of(obs["result"], axis)
         if same_axis_first != [x for _, v in vecs for x in v]:
@@ -564,6 +661,20 @@ def check_table(ctx, impls, case, tags=()):
         if res is not t:
             extra["viewsSelf"] = view_tables(t, srng, which=2)
     r = ask_table(ctx, case, before, axis, case["inplace"], cap, obs, facts, tags, extra)
+    if keep:
+        # the caller's own scipy matrix and the sibling tables built from it belong to somebody else
+        ktags = tuple(tags) + ("table", "shared-matrix", "impl=" + case["impl"], "op=" + case["op"], "axis=" + axis,
+                               "fmt=" + case["shared"]["fmt"], "dtype=" + case["shared"]["dtype"])
+        ctx.count("table:shared=%s/%s" % (case["shared"]["fmt"], case["shared"]["dtype"]))
+        if not caller_untouched(*keep["caller"]):
+            ctx.fail(case, "caller-matrix-changed", ktags, detail={"before": keep["caller"][1].toarray().tolist(),
+                                                                   "after": keep["caller"][0].toarray().tolist()})
+        for name, b, b_before in keep["siblings"]:
+            if table_obs(b) != b_before or not coherent_lookup(b):
+                ctx.fail(case, "bystander-changed", ktags + ("bystander=" + name,),
+                         detail={"before": b_before, "after": table_obs(b)})
+        if (repr(t.group_metadata("observation")), repr(t.group_metadata("sample"))) != gmd_before:
+            ctx.fail(case, "group-metadata-changed", ktags)
     if srng is not None:
         ttags = tuple(tags) + ("table", "stress", "impl=" + case["impl"], "op=" + case["op"], "axis=" + axis)
         for name, b, b_before in bystanders:
@@ -667,6 +778,12 @@ def ask_table(ctx, case, before, axis, inplace, cap, obs, facts, tags, more=None
         ctx.count("table:call=%s" % case["call"])
     if case.get("mdmode"):
         ctx.count("table:md=%s" % case["mdmode"])
+    if case.get("wrap"):
+        ctx.count("table:wrap=%s" % case["wrap"])
+    if case.get("wfilter"):
+        ctx.count("table:warnings=%s" % case["wfilter"])
+    if case.get("ids"):
+        ctx.count("table:ids=%s" % case["ids"])
     if case.get("reenter") is not None:
         ctx.count("table:reentrant,inplace=%s" % inplace)
         tags = tags + ("reentrant",)
@@ -697,6 +814,7 @@ def check_axisfree(ctx, impls, case, tags=()):
     results = []
     t0 = build_case_table(case)
     before = table_obs(t0)
+    shared_f = py_fn(case["fn"])   # ONE function object serves all four calls
     with kernels.use_kernels(mods):
         for axis in ("sample", "observation"):
             for inplace in (True, False):
@@ -704,7 +822,7 @@ def check_axisfree(ctx, impls, case, tags=()):
                 if case["fn"]["name"] == "pa" and axis == "sample":
                     res = t.pa(inplace=inplace)
                 else:
-                    res = t.transform(py_fn(case["fn"]), axis=axis, inplace=inplace)
+                    res = t.transform(shared_f, axis=axis, inplace=inplace)
                 results.append(table_obs(res))
     ctx.case(case, nontrivial=nnz_of(before["rows"]) >= 2 and asym(before["rows"]))
     ctx.count("axisfree:%s" % case["impl"])
@@ -835,6 +953,13 @@ def gen_wild_case(rng, impl):
         case["fn"] = rng.choice(CARRIERS)
     if op == "rankdata":
         case["method"] = rng.choice(RANK_METHODS)
+    if op == "norm" and rng.random() < 0.4:
+        # whole table scaled by a power of two into the subnormal range / towards overflow: totals are subnormal
+        # (their reciprocal is not a float) or huge, yet every quotient is an ordinary number and sums stay exact
+        scale = rng.choice([2.0 ** -1074, 2.0 ** -1062, 2.0 ** -1030, 2.0 ** 1000])
+        spec = gen_table_spec(rng, nonneg=True)
+        spec["rows"] = [[(max(1.0, float(round(x))) * scale if x else 0.0) for x in r] for r in spec["rows"]]
+        case["spec"], case["wild"], case["hist"] = spec, "scaled", rng.choice(HISTS[:5])
     return case
 
 
@@ -857,8 +982,18 @@ def tricky_ids(rng, spec):
     key = rng.choice(["obs", "samp"])
     ids = list(spec[key])
     k = rng.randrange(len(ids))
-    how = rng.choice(["blank", "newline", "long", "utf8", "prefix"])
-    if how == "blank":
+    how = rng.choice(["blank", "newline", "long", "utf8", "prefix", "nfc-nfd", "nasty", "nasty", "across-axes"])
+    if how == "nfc-nfd" and len(ids) >= 2:
+        # canonically equivalent spellings are DISTINCT IDs
+        a, b = core.twin_ids(rng, 1)
+        j = (k + 1) % len(ids)
+        ids[k], ids[j] = a, b
+    elif how == "nasty":
+        ids[k] = rng.choice(core.NASTY_TEXTS)
+    elif how == "across-axes":
+        other = spec["samp" if key == "obs" else "obs"]
+        ids[k] = rng.choice(list(other))      # the same text names a vector on each axis
+    elif how == "blank":
         ids[k] = ids[k] + " "
     elif how == "newline":
         ids[k] = ids[k] + "\n"
@@ -866,7 +1001,7 @@ def tricky_ids(rng, spec):
         ids[k] = ids[k] + "_" + "L" * 70
     elif how == "utf8":
         ids[k] = ids[k] + "é日本µ" * 6
-    else:
+    elif how == "prefix":
         ids[k] = ids[(k + 1) % len(ids)] + "x"   # an extension of a neighbour's ID
     if len(set(ids)) == len(ids):
         spec[key] = ids
@@ -910,6 +1045,17 @@ def decorate(rng, case):
         case["mdmode"] = mode
     if case["op"] == "transform" and rng.random() < 0.3:
         case["reenter"] = rng.randrange(1 << 30)   # the function reads the receiver while the transform runs
+    if rng.random() < 0.2:
+        # built directly from a matrix the caller keeps, next to sibling tables built from the same object
+        case["shared"] = {"fmt": rng.choice(SHARED_FMTS), "dtype": "float64" if not ordinary else rng.choice(SHARED_DTYPES),
+                          "sibling": rng.choice(["before", "after", "both", None])}
+        case["route"] = "shared"
+        if rng.random() < 0.6:
+            case["hist"] = rng.choice([None, "csr-transform"])   # stay in the layout the constructor leaves
+    if case["op"] == "transform" and rng.random() < 0.2:
+        case["wrap"] = rng.choice(["partial", "object", "method", "nested", "generator-list"])
+    if rng.random() < 0.1:
+        case["wfilter"] = rng.choice(["ignore", "always", "error"])
     return case
 
 
@@ -1059,8 +1205,8 @@ def run(ctx):
         dispatch(ctx, impls, case, ("fixed-corpus",))
     quick = ctx.quick()
     nw = max(1, getattr(ctx, "worker", (0, 1))[1])  # thorough totals are split over the worker processes
-    n_kernel = 800 if quick else 80000 // nw
-    n_table = 1000 if quick else 100000 // nw
+    n_kernel = 700 if quick else 80000 // nw
+    n_table = 950 if quick else 100000 // nw
     n_axis = 100 if quick else 6000 // nw
     n_cli = 20 if quick else 800 // nw
     # systematic kernel sweep: every named function x stored zeros x index order, on both implementations
@@ -1088,18 +1234,21 @@ def run(ctx):
     # in place or not, mostly in the layout the call works on (own arrays), so that size-gated shortcuts show
     for k in range(2 if quick else 8):
         wide_axis = rng.choice(["sample", "observation"])
-        spec = core.wide_spec(rng, axis=wide_axis, classes=("count", "smallcount", "dyadic"), md=rng.random() < 0.5)
+        spec = core.wide_spec(rng, axis=wide_axis, classes=("count", "smallcount", "dyadic"), md=rng.random() < 0.5,
+                              n_axis=rng.choice([520, 600]) if k == 1 else None, other=2 if k == 1 else None)
         for axis in ("sample", "observation"):
             for inplace in (True, False):
                 for op, kw in (("pa", {}), ("norm", {}), ("rankdata", {"method": rng.choice(RANK_METHODS)}),
                                ("transform", {"fn": rng.choice(VECTORWISE + ELEMENTWISE[6:8])})):
+                    if k == 1 and op == "norm" and axis != wide_axis:
+                        continue   # the proportionality clause is quadratic in the vector length (500+ here)
                     own = rng.random() < 0.7
                     case = {"level": "table", "op": op, "spec": spec, "route": rng.choice(core.ROUTES),
                             "hist": ("csc-transform" if axis == "sample" else "csr-transform") if own
                             else rng.choice(HISTS[:5]),
                             "axis": axis, "inplace": inplace, "wide": wide_axis}
                     case.update(kw)
-                    if rng.random() < 0.4:
+                    if rng.random() < (0.4 if k != 1 else 0.1):
                         case["stress"] = rng.randrange(1 << 30)
                     if ctx.mine(k):
                         for impl in names:
